@@ -27,13 +27,14 @@ EXHAUSTIVE = {"quick": "all arguments of each operation for every generated trac
 SOFT_MONITORS = ['getInsertionIndex.keeps_sorted']      # contracts on private helpers: diagnostics, see vt/runner.py
 CASE_LIMIT_S = 60.0
 
-OPS = ["sort", "insert", "insert_chain", "extract", "span", "add", "mod_int", "mod_pattern", "gt", "lt",
+OPS = ["sort", "insert", "insert_chain", "insert_alternate", "extract", "span", "add", "mod_int", "mod_pattern", "gt", "lt",
        "remove_list", "remove_one", "pop", "history", "history", "slice", "sort_radix", "remove_ends", "derived_edit", "aliased_removal"]
 
 BASES = [gen.ms_from_fields(2021, 6, 15, 12, 0, 0, 0),
          gen.ms_from_fields(2019, 12, 31, 23, 59, 58, 0),     # year end
          gen.ms_from_fields(2020, 2, 28, 23, 59, 59, 500),    # leap day
-         gen.ms_from_fields(1970, 1, 1, 0, 0, 0, 0)]
+         gen.ms_from_fields(1970, 1, 1, 0, 0, 0, 0),
+         gen.ms_from_fields(2021, 3, 28, 2, 59, 57, 0)]       # an hour that does not exist in many local time zones
 
 
 def chunks(tier, seed):
@@ -290,6 +291,34 @@ def run_case(case, ctx):
                 J.fail("sort changed the feature table")
             J.outcomes.add(tuple(got))
             J.outcomes.add(tuple(range(n)))
+
+    elif op == "insert_alternate":
+        # two independent time-sorted tracks of the same size receive index-less insertions in turn (A, B, A, B ...):
+        # each must stay sorted and hold exactly its own observations
+        st = sorted(times)
+        A_ = build(st)
+        B_ = build([t + 86400000 * 3 + 500 for t in st], start_id=1000)
+        span = (st[-1] - st[0] + 2000) if st else 2000
+        lo = st[0] if st else BASES[0]
+        for k in range(6):
+            for which, trk, shift in (("A", A_, 0), ("B", B_, 86400000 * 3 + 500)):
+                c = lo + shift + rng.randrange(-1000, span)
+                if c < 0:
+                    continue
+                new = Obs(ENUCoords(-1.0, -1.0, -1.0), gen.obstime_from_ms(c))
+                new.features = [-1.0 - k, -1.0]
+                r = M.call(trk.insertObs, new)
+                ctx.monitor("model.ids")
+                ms = [gen.obstime_to_ms(o.timestamp) for o in trk.getObsList()]
+                if M.is_raised(r) or any(ms[i] > ms[i + 1] for i in range(len(ms) - 1)) or \
+                        sum(1 for o in trk.getObsList() if o is new) != 1:
+                    J.fail("two sorted tracks receiving chronological insertions in turn: track %s is no longer sorted "
+                           "(or the insertion failed)" % which, args={"round": k, "instant": c}, got_times=ms[:40],
+                           raised=r if M.is_raised(r) else None)
+                    break
+            if J.problem:
+                break
+        J.outcomes.add(("alternate", n))
 
     elif op in ("insert", "insert_chain"):
         st = sorted(times)
